@@ -479,3 +479,14 @@ def run(chk):
     chk.guard('C12.chk', _integrality, chk)
     chk.guard('C12.chk', _type_tests, chk)
     chk.guard('C12.lit', _literals, chk)
+    # int and float spellings print alike: value_string (C13.D/C) and value_json (C14.S/N) - shared rules
+    from . import c13, c14
+    chk.rule('C13.D', 'shared with C13: value_string prints int and integral float alike')
+    chk.rule('C13.C', 'shared with C13: number clean-up')
+    chk.rule('C14.S', 'shared with C14: substitutions on JSON text cannot alter strings')
+    chk.rule('C14.N', 'shared with C14: integral floats are written without a fraction in every position of JSON text')
+    name = chk.guard('C13.D', c13.check_value_string, chk)
+    if name:
+        chk.guard('C13.C', c13.check_cleanup, chk, name)
+    aware = chk.guard('C14.S', c14.check_substitutions, chk)
+    chk.guard('C14.N', c14.check_number_cleanup, chk, aware or [])
